@@ -124,6 +124,10 @@ def focused(tier):
     out.append(single("ps inf", fam, c="inf", K=K, nodekw={"ps": True}, features=["ps"]))
     out.append(single("ps cap2", fam, c=2, K=K, nodekw={"ps": True}, features=["ps"]))
     out += ageing_priorities(tier)
+    out += sched_preempt_chain(tier)            # blocked, then interrupted at a shift end, then admitted while interrupted
+    out += sched_preempt_two_upstream(tier)
+    out += noserver_upstream_block(tier)
+    out += per_class_per_node_reneging(tier)
     return out
 
 
